@@ -230,7 +230,12 @@ func toPB(m consensus.Message) (pb *kcons.Message) {
 	return pb
 }
 
-func marshal(pb proto.Message) []byte {
+func marshal(pb proto.Message) (out []byte) {
+	defer func() {
+		if recover() != nil { // e.g. a nil element in a repeated message field: not expressible on the wire
+			out = nil
+		}
+	}()
 	b, err := proto.Marshal(pb)
 	if err != nil {
 		return nil
